@@ -1,6 +1,7 @@
 package verifsim
 
 import (
+	"sync"
 	crand "crypto/rand"
 	"fmt"
 	"io"
@@ -48,7 +49,16 @@ func Now() time.Time {
 		return s.Clock.now
 	}
 	if envClock != nil {
-		return *envClock
+		// a process-wide simulated clock (generator processes): it starts at the configured origin and, when a
+		// jitter seed is given, moves on by a seeded 0-2 ms at every reading - time passes, at a speed that
+		// differs from one run to the next, which is all a program may assume about it
+		envClockMu.Lock()
+		defer envClockMu.Unlock()
+		now := *envClock
+		if envClockRng != nil {
+			*envClock = envClock.Add(time.Duration(envClockRng.intN(2000)) * time.Microsecond)
+		}
+		return now
 	}
 	return time.Now()
 }
@@ -200,6 +210,8 @@ var (
 	envMapMode MapMode
 	envMapRng  *rng
 	envClock   *time.Time
+	envClockRng *rng
+	envClockMu  sync.Mutex
 	// MapVisits counts visits of rewritten range sites in this process.
 	MapVisits int
 )
@@ -218,9 +230,16 @@ func init() {
 		}
 	}
 	if v := os.Getenv("VERIFSIM_CLOCK"); v != "" {
+		jit := ""
+		if i := strings.Index(v, ":"); i >= 0 {
+			v, jit = v[:i], v[i+1:]
+		}
 		if n, err := strconv.ParseInt(v, 10, 64); err == nil {
 			t := time.Unix(n, 0)
 			envClock = &t
+			if j, err := strconv.ParseUint(jit, 10, 64); err == nil && jit != "" {
+				envClockRng = &rng{s: j}
+			}
 		}
 	}
 	initFaultFS()
